@@ -16,7 +16,7 @@ RULE = ("postconditions on translation, rotation, scaling, reflection, affine_tr
         "reflection: involution, fixes points of the mirror, orthogonal linear part, agrees with mirror(); from_points maps each of the n+2 "
         "source points to its target; from_points_and_conics maps the three points and the conic. Workload: offsets as numbers and as Point, "
         "angles in (-7,7), axes in all octants, mirrors vertical / through the origin / generic / far away, random lattice frames in general "
-        "position in 2D and 3D, circles and ellipses. Non-trivial = parameters not all 0/1; distinct by parameter digest. Point collections with axes of length 1 ((1,), (1,4), (3,1), (1,1)): the image has the shape of the collection.")
+        "position in 2D and 3D, circles and ellipses. Non-trivial = parameters not all 0/1; distinct by parameter digest. Point collections with axes of length 1 ((1,), (1,4), (3,1), (1,1)): the image has the shape of the collection. from_points with targets in representatives with an imaginary common factor, as typed and as mirror() returns them.")
 SHARDS = (4, 16)
 REQUIRED = ["translation", "rotation2d", "rotation3d", "scaling", "reflection", "affine_transform", "identity", "from_points", "from_points_and_conics", "rotation.additive"]
 ASSUMPTIONS = ["the handedness of rotation(a, axis) is not fixed by the statement and not judged"]
